@@ -227,6 +227,7 @@ def c15_6(ctx):
         f = ctx.repo.fn('_dict:%s' % name)
         item = f.params[1]
         seen = set()
+        site = ([x for x in body_nodes(f.node) if isinstance(x, ast.Assign) and U(x.targets[0]) == 'items'] or [f.node])[0]
         for p in sym_paths(f):
             v = p.env.get('items')
             if v is None:
@@ -234,12 +235,12 @@ def c15_6(ctx):
             ctx.count(1, f.where())
             isstr = 'str' if p.holds('isinstance(%s, str)' % item, True) else 'seq' if p.holds('isinstance(%s, str)' % item, False) else None
             if isstr is None:
-                ctx.fail(f, f.node, '%s: the path `%s` is parsed as `%s` without first asking whether it is a string' % (name, item, N(v)), stmt=v)
+                ctx.fail(f, site, '%s: the path `%s` is parsed as `%s` without first asking whether it is a string' % (name, item, N(v)), stmt=v)
                 break
             seen.add(isstr)
             want = NS("%s.split('.')" % item) if isstr == 'str' else 'as_list(%s)' % item
             if N(v) != want:
-                ctx.fail(f, f.node, '%s: a %s path is parsed as `%s`, expected `%s` (keys inside a list/tuple are never split: a key may contain dots)' % (name, 'string' if isstr == 'str' else 'list/tuple', N(v), want), stmt=v,
+                ctx.fail(f, site, '%s: a %s path is parsed as `%s`, expected `%s` (keys inside a list/tuple are never split: a key may contain dots)' % (name, 'string' if isstr == 'str' else 'list/tuple', N(v), want), stmt=v,
                          witness="tree_getitem({'a.b': 1}, ['a.b']) == 1")
                 break
         if not ctx.findings and seen != {'str', 'seq'}:
